@@ -449,6 +449,8 @@ def run(prog, ctx):
             else:
                 res.violate("C05.D", "C05.D|%s" % f.id, "%s: the re-insertion scan after a deletion can stop before the next empty slot (extra exit condition %s); items behind the hole become unreachable" % (f.id, bad[:120]), f.id)
     res.rule("C05.D", n_d, 1, "re-insertion scans after deletion in the pair table")
+    # ---------------- C05.K a decision taken after an insertion looks at the count after it (common.stale_count_decisions)
+    C.stale_count_rule(res, prog, "C05.K", "cpc::", "CPC sketch")
     res.explanation = ("structural and formula rules over the %d functions reachable from CpcSketch::update; threshold formulas are evaluated on a grid of "
                        "lg_k 4..=26 x boundary/random coupon counts" % len(reach))
     res.not_decided = "equality of the reconstructed matrix with the model for all coupon streams"
